@@ -234,6 +234,25 @@ MUTANTS = [
   """                            RequirementType::Maintenance => {
                                 I80F48::ZERO
                             }""", ["C05"]),
+ # ---- round 5 additions ----
+ ("c16-close-frozen-allowed", M+"instructions/marginfi_account/close.rs",
+  "    if marginfi_account.get_flag(ACCOUNT_FROZEN) {\n        return err!(MarginfiError::AccountFrozen);\n    }",
+  "    if false && marginfi_account.get_flag(ACCOUNT_FROZEN) {\n        return err!(MarginfiError::AccountFrozen);\n    }", ["C16"]),
+ ("c02-close-bank-value-check-removed", M+"instructions/marginfi_group/close_bank.rs",
+  "        bank.get_asset_amount(bank.total_asset_shares.into())?\n            .is_zero_with_tolerance(ZERO_AMOUNT_THRESHOLD)",
+  "        (bank.get_asset_amount(bank.total_asset_shares.into())? >= I80F48::ZERO)", ["C02"]),
+ ("c16-disabled-can-repay", M+"instructions/marginfi_account/repay.rs",
+  "    check!(\n        !marginfi_account.get_flag(ACCOUNT_DISABLED),\n        MarginfiError::AccountDisabled\n    );\n    validate_bank_state",
+  "    check!(\n        true || !marginfi_account.get_flag(ACCOUNT_DISABLED),\n        MarginfiError::AccountDisabled\n    );\n    validate_bank_state", ["C16"]),
+ ("c16-disabled-can-start-flashloan", M+"instructions/marginfi_account/flashloan.rs",
+  "    check!(\n        !marginf_account.get_flag(ACCOUNT_DISABLED),",
+  "    check!(\n        true || !marginf_account.get_flag(ACCOUNT_DISABLED),", ["C16", "C11"]),
+ ("c06-bankruptcy-no-accrue", M+"instructions/marginfi_group/handle_bankruptcy.rs",
+  "    let group = &marginfi_group_loader.load()?;\n\n    bank.accrue_interest(\n        clock.unix_timestamp,\n        group,\n        #[cfg(not(feature = \"client\"))]\n        bank_loader.key(),\n    )?;",
+  "    let group = &marginfi_group_loader.load()?;\n    let _ = &clock;", ["C06"]),
+ ("c19-permissionless-fee-withdrawal-any-destination", M+"instructions/marginfi_group/collect_bank_fees.rs",
+  "        has_one = fees_destination_account @ MarginfiError::InvalidFeesDestinationAccount,\n    )]\n    pub bank: AccountLoader<'info, Bank>,\n\n    #[account(\n        mut,\n        seeds = [\n            FEE_VAULT_SEED.as_bytes(),",
+  "    )]\n    pub bank: AccountLoader<'info, Bank>,\n\n    #[account(\n        mut,\n        seeds = [\n            FEE_VAULT_SEED.as_bytes(),", ["C19", "C08"]),
 ]
 
 def sh(cmd, **kw):
